@@ -36,21 +36,21 @@ def wkb_pipeline(run, focus):
     if focus == "C05":
         p = os.path.join(out, "GenC.cfg")
         with open(p, "w") as f:
-            f.write("SPECIFICATION GenSpec\nCHECK_DEADLOCK FALSE\nCONSTANTS\n  L = %d\n  LG = %d\n  Mode = \"codec\"\n  MaxReads = 0\n  MaxDepth = 0\n  WideN = %s\n  WideB = %s\n" % (L, LG, wn, wb))
+            f.write("SPECIFICATION GenSpec\nCHECK_DEADLOCK FALSE\nCONSTANTS\n  L = %d\n  LG = %d\n  Mode = \"codec\"\n  MaxReads = 0\n  MaxDepth = 0\n  WideN = %s\n  WideB = %s\n  HexLen = 0\n" % (L, LG, wn, wb))
         cp = os.path.join(out, "codec.ndjson")
         run.gen("gen_codec", SPEC, "WKBGen", p, cp, workers=1, timeout=3000)
         cases += vlib.read_ndjson(cp)
     else:
         p = os.path.join(out, "GenH.cfg")
         with open(p, "w") as f:
-            f.write("SPECIFICATION GenSpec\nCHECK_DEADLOCK FALSE\nCONSTANTS\n  L = 0\n  LG = 0\n  Mode = \"hostile\"\n  WideN = {}\n  WideB = {}\n  MaxReads = %d\n  MaxDepth = 3\nINVARIANT EmitHostile\n" % (4 if quick else 6))
+            f.write("SPECIFICATION GenSpec\nCHECK_DEADLOCK FALSE\nCONSTANTS\n  L = 0\n  LG = 0\n  Mode = \"hostile\"\n  WideN = {}\n  WideB = {}\n  HexLen = 0\n  MaxReads = %d\n  MaxDepth = 3\nINVARIANT EmitHostile\n" % (4 if quick else 6))
         cp = os.path.join(out, "hostile.ndjson")
         run.gen("gen_hostile", SPEC, "WKBGen", p, cp, workers=4, timeout=3000)
         cases += vlib.read_ndjson(cp)
         # members of a foreign type inside multi-geometries (complete geometries, so no bounded read sequence reaches them)
         p = os.path.join(out, "GenF.cfg")
         with open(p, "w") as f:
-            f.write("SPECIFICATION GenSpec\nCHECK_DEADLOCK FALSE\nCONSTANTS\n  L = 0\n  LG = 0\n  Mode = \"foreign\"\n  WideN = {}\n  WideB = {}\n  MaxReads = 0\n  MaxDepth = 0\n")
+            f.write("SPECIFICATION GenSpec\nCHECK_DEADLOCK FALSE\nCONSTANTS\n  L = 0\n  LG = 0\n  Mode = \"foreign\"\n  WideN = {}\n  WideB = {}\n  HexLen = %d\n  MaxReads = 0\n  MaxDepth = 0\n" % (2 if quick else 3))
         cp = os.path.join(out, "foreign.ndjson")
         run.gen("gen_foreign", SPEC, "WKBGen", p, cp, workers=1, timeout=3000)
         cases += vlib.read_ndjson(cp)
